@@ -1866,6 +1866,9 @@ impl Cfg {
     }
 }
 
+/// every word the scanner may type as a keyword (lang.rs `KeywordKind`, lower case)
+pub const ALL_KEYWORDS: &[&str] = &["and", "array", "as", "asm", "begin", "case", "class", "const", "constructor", "destructor", "dispinterface", "div", "do", "downto", "else", "end", "except", "exports", "file", "finalization", "finally", "for", "function", "goto", "if", "implementation", "in", "inherited", "initialization", "inline", "interface", "is", "label", "library", "mod", "nil", "not", "object", "of", "or", "packed", "procedure", "program", "property", "raise", "record", "repeat", "resourcestring", "set", "shl", "shr", "string", "then", "threadvar", "to", "try", "type", "unit", "until", "uses", "var", "while", "with", "xor", "absolute", "abstract", "align", "assembler", "at", "automated", "cdecl", "contains", "default", "delayed", "deprecated", "dispid", "dynamic", "experimental", "export", "external", "far", "final", "forward", "helper", "implements", "index", "local", "message", "name", "near", "nodefault", "on", "operator", "out", "overload", "override", "package", "pascal", "platform", "private", "protected", "public", "published", "read", "readonly", "reference", "register", "reintroduce", "requires", "resident", "safecall", "sealed", "static", "stdcall", "stored", "strict", "unsafe", "varargs", "virtual", "winapi", "write", "writeonly"];
+
 pub const FOLLOWERS: &[&str] = &[" ", ";", "(", ".", "\n", "\u{3000}", "é", "+", "'", "{", "#", ""];
 pub const KEYWORD_SAMPLE: &[&str] = &[
     "begin", "end", "implementation", "dispinterface", "resourcestring", "if", "of", "to", "absolute", "writeonly",
@@ -2003,6 +2006,16 @@ pub fn tok_family_case(rng: &mut Rng) -> (String, Vec<String>) {
                     w.push_str(rng.pick_str(&["a", "B", "_", "0", "9", "é", "ß"]));
                 }
                 ("ident".into(), w)
+            }
+            11 if rng.chance(1, 2) => {
+                // a proper prefix of a keyword, or a keyword with one more letter: an identifier unless it is itself a keyword
+                let k = rng.pick_str(ALL_KEYWORDS);
+                let mut w: String = if rng.chance(2, 3) && k.len() > 2 { k[..rng.range(2, k.len() - 1)].to_string() } else { format!("{}{}", k, rng.pick_str(&["s", "x", "_", "1", "e"])) };
+                if ALL_KEYWORDS.contains(&w.as_str()) {
+                    w.push('q');
+                }
+                let w: String = w.chars().map(|c| if rng.chance(1, 3) { c.to_ascii_uppercase() } else { c }).collect();
+                ("plainident".into(), w)
             }
             1 => {
                 let k = rng.pick_str(&["begin", "end", "implementation", "if", "of", "to", "xor", "in", "initialization", "finalization", "resourcestring", "dispinterface", "absolute", "on", "at", "experimental", "winapi"]);
